@@ -166,6 +166,41 @@ theorem outerLoop_total {db : Str} {len st : Nat} {bans : List Str} {filters : L
       · rename_i hp; exact absurd hp ht.2
     · exact ⟨[], rfl⟩
 
+/-! ### the executable twin equals the model's loop -/
+
+theorem suffixAt_eq {db cur : Str} {curPos : Nat} (h : cur = db.drop curPos) (start : Nat) :
+    suffixAt db cur curPos start = db.drop start := by
+  unfold suffixAt
+  split
+  · rename_i hle
+    rw [h, List.drop_drop]; congr 1; omega
+  · rfl
+
+theorem outerLoopFast_eq (db : Str) (len : Nat) (stride : Int) (bans : List Str) (filters : List (Str → Bool))
+    (fuel bn : Nat) (cur : Str) (curPos : Nat) (h : cur = db.drop curPos) :
+    outerLoopFast db db.length len stride bans filters fuel bn cur curPos =
+      outerLoop db db.length len stride bans filters fuel bn := by
+  induction fuel generalizing bn cur curPos with
+  | zero => rfl
+  | succ fuel ih =>
+    unfold outerLoopFast outerLoop
+    simp only [suffixAt_eq h]
+    split
+    · split
+      · rfl
+      · split
+        · rename_i s e bn' hsh
+          obtain ⟨k, hs, _, _, _, _, _⟩ := shiftLoop_found rfl hsh
+          have hd : (db.drop ((bn : Int) * stride).toNat).drop (s - ((bn : Int) * stride).toNat) = db.drop s := by
+            rw [List.drop_drop]; congr 1; omega
+          simp only [hd]
+          rw [ih bn' (db.drop s) s rfl]
+          rfl
+        · rfl
+        · rfl
+        · rfl
+    · rfl
+
 /-! ### n-letter words inside a piece of `db` -/
 
 /-- an `n`-letter word inside `db[p : p+len]` is the window of `db` at some position `q` with
